@@ -83,6 +83,7 @@ def run_job(arg):
     res = dict(name=job.get("name", "?"), stats={}, violations=[], unsupported=[], goals={}, samples=[],
                functions=[], concolic=0, mismatches=[], wall=0.0, error=None)
     try:
+        sys.setrecursionlimit(100000)
         from wsx import core, env, sxbuiltins
         from wsx.core import Engine, conc
         H = load_harness(prop)
@@ -96,6 +97,7 @@ def run_job(arg):
             return res
         eng = Engine(solver_timeout_ms=getattr(H, "SOLVER_TIMEOUT_MS", 60000), deadline=deadline,
                      max_paths=job.get("max_paths"))
+        eng.opaque_ints = getattr(H, "OPAQUE_INTS", False)
         known = getattr(H, "KNOWN", {})
         preds = [known[k] for k in known_ids if k in known]
         normalize = getattr(H, "normalize", lambda o: o)
@@ -306,7 +308,9 @@ def check(prop, tier, nproc=None, budget_s=None, only=None):
             reachability_goals=goals, functions_encoded=sorted(funcs),
             source_digest=_digest(), bounds=H.BOUNDS(tier) if callable(getattr(H, "BOUNDS", None)) else getattr(H, "BOUNDS", ""),
             stubs=getattr(H, "STUBS", []), candidates=len(cands), replayed=nrep,
-            inconclusive=problems[:20], exhaustive=False, **extra),
+            inconclusive=problems[:20], exhaustive=False,
+            slowest_jobs=[dict(job=r["name"], paths=r.get("stats", {}).get("paths", 0), wall_s=round(r.get("wall", 0), 1))
+                          for r in sorted(results, key=lambda r: -r.get("wall", 0))[:8]], **extra),
         assumptions=getattr(H, "ASSUMPTIONS", []),
         wall_s=round(wall, 2), violations=len(violations))
     os.makedirs(os.path.join(VERIF, "evidence"), exist_ok=True)
